@@ -307,17 +307,26 @@ SelH(v, D, s) ==
   ELSE {}
 
 (***************************************************************************)
-(* Time (C09).  The implementation validates exp with 60 s leeway; the     *)
-(* property leaves a 120 s guard band unasserted.  Clock interval [t0,t1]. *)
-(* exp / nbf are given as [k |-> "absent"|"nan"|"int", v |-> Int].         *)
+(* Time (C09).  exp must be rejected when it lies more than the 60 s       *)
+(* leeway in the past, nbf when more than the leeway in the future; inside *)
+(* the window nothing temporal may cause rejection.  The call happened at  *)
+(* some instant of the logged clock interval [t0, t1] (whole seconds read  *)
+(* immediately before and after it), so: exp < t0 - 60 => certainly out,   *)
+(* exp > t1 => certainly in; Slack absorbs rounding of fractional instants *)
+(* and one tick of clock granularity.  Between the two nothing is asserted *)
+(* ("free").  exp / nbf: [k |-> "absent"|"nan"|"int"|"float"|"floatbig",   *)
+(* v |-> Int] (float: integer part, the value lies in [v, v+1)).           *)
+(* (Until hour 15 the unasserted band was 120 s on either side, which hid  *)
+(* a leeway of 100 s instead of 60 and any rejection within two minutes.)  *)
 (***************************************************************************)
 Leeway == 60
-Guard == 120
+Slack == 2
 TimeVerdict(exp, nbf, t0, t1) ==
+  LET fm(x) == IF x.k = "float" THEN 1 ELSE 0 IN
   IF exp.k \in {"absent", "nan"} THEN "reject"
-  ELSE IF exp.k = "float" \/ nbf.k \in {"float", "nan"} THEN "free"        \* fractional instants / non-numeric nbf: outside the property's quantifier
-  ELSE IF exp.v < t0 - Guard THEN "reject"
-  ELSE IF nbf.k = "int" /\ nbf.v > t1 + Guard THEN "reject"
-  ELSE IF exp.v > t1 + Guard /\ (nbf.k = "absent" \/ (nbf.k = "int" /\ nbf.v < t0 - Guard)) THEN "accept"
+  ELSE IF exp.k = "floatbig" \/ nbf.k \in {"nan", "floatbig"} THEN "free"     \* non-numeric nbf / instants beyond 64 bits: outside the property's quantifier
+  ELSE IF exp.v + fm(exp) < t0 - Leeway - Slack THEN "reject"
+  ELSE IF nbf.k \in {"int", "float"} /\ nbf.v > t1 + Leeway + Slack THEN "reject"
+  ELSE IF exp.v > t1 + Slack /\ (nbf.k = "absent" \/ nbf.v + fm(nbf) < t0 - Slack) THEN "accept"
   ELSE "free"
 =============================================================================
